@@ -3,6 +3,8 @@
 package parser
 
 import (
+	"strconv"
+
 	"wa-lang.org/wa/internal/wat/ast"
 	"wa-lang.org/wa/internal/wat/token"
 )
@@ -48,21 +50,39 @@ func (p *parser) parseModule() {
 	}
 
 	// 补充导出全局变量/函数
-	for _, g := range p.module.Globals {
+	// 匿名对象通过索引引用(导入对象排在前面)
+	nImportGlobals, nImportFuncs := 0, 0
+	for _, spec := range p.module.Imports {
+		switch spec.ObjKind {
+		case token.GLOBAL:
+			nImportGlobals++
+		case token.FUNC:
+			nImportFuncs++
+		}
+	}
+	for i, g := range p.module.Globals {
 		if g.ExportName != "" {
+			idx := g.Name
+			if idx == "" {
+				idx = strconv.Itoa(nImportGlobals + i)
+			}
 			p.module.Exports = append(p.module.Exports, &ast.ExportSpec{
 				Name:      g.ExportName,
 				Kind:      token.GLOBAL,
-				GlobalIdx: g.Name,
+				GlobalIdx: idx,
 			})
 		}
 	}
-	for _, fn := range p.module.Funcs {
+	for i, fn := range p.module.Funcs {
 		if fn.ExportName != "" {
+			idx := fn.Name
+			if idx == "" {
+				idx = strconv.Itoa(nImportFuncs + i)
+			}
 			p.module.Exports = append(p.module.Exports, &ast.ExportSpec{
 				Name:    fn.ExportName,
 				Kind:    token.FUNC,
-				FuncIdx: fn.Name,
+				FuncIdx: idx,
 			})
 		}
 	}
